@@ -76,6 +76,12 @@ META["C15"] = {
     "design_ref": "DESIGN.md §7 C15",
 }
 
+META["C09"] = {
+    "text": "Bounded symbolic model checking of the real GetPegNetRateAverages (both closures, numberMissing) with SelectRates / SelectMostRecentRatesBeforeHeight over a symbolic rate table: a daemon that lives through the whole chain and a daemon restarted right before ANY rated block obtain the same averages for every asset, for every rated/unrated pattern and all rate values within the bounds. Found D4 (count-trimmed cache vs height-window reload), repaired by a fix: commit.",
+    "note": "reduced averaging period (P=3 quick, 4 thorough; mainnet 288, code uniform in P), 6-9 heights, 2 assets; the claim that no other in-memory state influences results rests on reading SyncBlock (all other inputs go through SQL)",
+    "design_ref": "DESIGN.md §7 C09",
+}
+
 NOT_APPLICABLE = {}
 for i in range(1, 21):
     p = "C%02d" % i
